@@ -122,6 +122,8 @@ Check(e) ==
          ELSE IF DOMAIN e.result # Q THEN Fail("map_query.assigned_variables")
          ELSE IF e.result \notin ArgMaxSet(P) THEN Fail("map_query.not_a_maximiser")
          ELSE <<>>
+    \* a specified call (engine construction, calibration) raised: the calls are total on connected models
+    [] e.ev = "raised" -> Fail(e.api \o ".raises")
     [] OTHER -> Fail("unknown_event")
 
 \* events that set / advance the engine state
